@@ -172,7 +172,7 @@ let c17_judge c obs =
   | L (A "get" :: A kind :: _), L [A "get"; A st; id] ->
     let second = (kind = "dir2" || kind = "files2") in
     (* gdir / gfiles: the same handlers registered inside a group; dire / filese / fse: on a router with UseEncodedPath *)
-    let kind = match kind with "gfiles" | "filese" -> "files" | "gdir" | "dire" -> "dir" | "fse" -> "fs" | k -> k in
+    let kind = match kind with "gfiles" | "filese" | "tfiles" -> "files" | "gdir" | "dire" -> "dir" | "fse" -> "fs" | k -> k in
     (match id with
      | L [A "out"; f] -> "bad serves-outside-root file=" ^ to_string f ^ " status=" ^ st
      | L [A "in"; f] when second -> "bad serves-outside-root file=(first-root)" ^ to_string f ^ " status=" ^ st
